@@ -4,6 +4,21 @@ import json, os, subprocess
 VERIF = os.path.dirname(os.path.dirname(os.path.abspath(__file__)))
 
 CLAIMED = {
+    "C06": ("DESIGN.md §4 C06",
+            "Framing state is carried across units and messages; the simulator drives seeded messages of 1..6 units over scripted handlers (queries emitting 0..4 "
+            "items of every result type, succeeding, failing silently, failing after emitting, raising errors mid-unit; commands), any segmentation, after any "
+            "previous message, with write() returning short/0/-1 and flush() failing. Captured bytes and flush count must equal one member of the acceptable set "
+            "computed from independently encoded payloads (table A.2, both readings of the open rows). Exploration level.",
+            "A query whose handler succeeded with zero items may or may not count as a response unit (both accepted). Float/double digits come from the stand-alone "
+            "formatter (C16's subject).",
+            "deterministic simulation: seeded handler-failure and transport-fault sequences, acceptable-set framing model"),
+    "C17": ("DESIGN.md §4 C17",
+            "Blocks are produced by a sequence of calls sharing state; seeded handler scripts emit arrays of all ten element types in NORMAL/SWAPPED/ASCII, one-shot "
+            "and streamed blocks with every split of header/data calls (zero-length pieces, incomplete, over-length at any point), header-only calls up to 10^9-1, "
+            "items after complete/incomplete blocks, under transport faults. Every call's bytes are compared with an independent shift-based encoder; over-length "
+            "data must be refused with an error. Exploration level.",
+            "Host is little-endian: 'whatever the host byte order' is exercised for one host order only.",
+            "deterministic simulation: seeded call-sequence splits and handler faults against an independent encoder"),
     "C01": ("DESIGN.md §4 C01",
             "Seeded search over input streams x segmentations x histories x sizes x build configurations: grammar-generated, byte-mutated, boundary-truncated "
             "and raw streams fed in 1-byte / small / whole / random segments with idle flushes, oversize chunks, direct SCPI_Parse lines, firmware pushes, "
